@@ -54,6 +54,25 @@ pub fn run(seed: u64, n: usize, out: &mut Out, with_sem: bool, known_defects: u3
             nontrivial,
             key: format!("{i}:{}", c.query_text),
         });
+        if panic_oracle && !c.args.is_empty() {
+            // an argument map with one variable missing must be REFUSED; if it is ever accepted, executing it
+            // must still not panic
+            let mut fewer = (*c.args).clone();
+            let drop = fewer.keys().nth(i % fewer.len()).cloned();
+            if let Some(k) = drop {
+                fewer.remove(&k);
+                let c2 = EngineCase { dataset: c.dataset.clone(), query_text: c.query_text.clone(), indexed: c.indexed.clone(), args: std::sync::Arc::new(fewer), features: Default::default(), var_hints: Default::default() };
+                match run_impl(&c2) {
+                    Outcome::Panic(m) => {
+                        let mut inp = input.clone();
+                        inp["omitted_argument"] = serde_json::json!(k.to_string());
+                        out.oracle_fail("executing a query with an ACCEPTED (incomplete) argument map panicked", inp, serde_json::json!({"panic": m.chars().take(300).collect::<String>()}));
+                    }
+                    Outcome::ArgError(_) => out.count("incomplete-args:refused"),
+                    Outcome::Rows(_) => out.count("incomplete-args:ACCEPTED"),
+                }
+            }
+        }
         if panic_oracle {
             // does this world meet the static conditions of the C09 theorem (panics only in filter operators)?
             out.add_info(Case {
@@ -83,6 +102,14 @@ pub fn run(seed: u64, n: usize, out: &mut Out, with_sem: bool, known_defects: u3
     out.count_n("gen:frontend-rejected", stats.frontend_rejected);
     out.count_n("gen:frontend-panicked", stats.frontend_panicked);
     for (k, v) in stats.reject_kinds {
+        if let Some(rest) = k.strip_prefix("PANIC|") {
+            // the frontend panicked on a generated query text (property C10 owns the known classes)
+            let (msg, text) = rest.split_once('|').unwrap_or((rest, ""));
+            // (frontend panics are property C10's subject; here they are only counted)
+            let _ = (msg, text);
+            out.count("frontend-panic-on-generated-query");
+            continue;
+        }
         out.count_n(&format!("reject:{k}"), v);
     }
     out.count_n("rows:total", rows_total);
